@@ -6,10 +6,11 @@ from hypothesis import strategies as st
 from .. import model as M
 from .. import common as C
 from ..runner import run_given
+from ..stateful import Mismatch
 
 PROPERTY = 'C15'
 RULE = ("sum, cumsum, prod, cumprod, dot, matmul, trace, max, min, sort, clip, transpose, diagonal on fixed-point arrays of shapes (1..8,) and up to 3x3, n_word<=12, through the numpy function and the method, "
-        "axis None or any valid axis; elements all-lowest, all-highest, alternating extremes or random; dot/matmul with a second operand of independent format and signedness (1-d.1-d, 2-d.1-d, 2-d.2-d). "
+        "axis None or any valid axis (transpose: no axes / any permutation as axes / .T; clip: both limits, one limit, list and ndarray limits which must come back unmodified); elements all-lowest, all-highest, alternating extremes or random; dot/matmul with a second operand of independent format and signedness (1-d.1-d, 2-d.1-d, 2-d.2-d). "
         "Oracle: the same numpy reduction applied to an object array of Fractions built from the codes (numpy only iterates, the arithmetic is Fraction's): exact values and shape; result is an Fxp; "
         "no overflow/underflow flag for the accumulating functions; both routes agree. Result word <=53 (prod/cumprod only when n*n_word<=53). "
         "Non-trivial = >=2 elements with at least one extreme, or axis not None, or mixed signedness in dot; distinct = distinct case keys.")
@@ -64,9 +65,14 @@ def check_func(ctx, case):
     elif func == 'clip':
         lo_v = Fraction(case['clip'][0][0], case['clip'][0][1])
         hi_v = Fraction(case['clip'][1][0], case['clip'][1][1])
-        expected = np.clip(A, lo_v, hi_v)
+        bounds = case.get('bounds', 'both')        # both | lo | hi | array | list
+        expected = np.array([min(max(v, lo_v) if bounds != 'hi' else v, hi_v) if bounds != 'lo' else max(v, lo_v) for v in A.ravel().tolist()], dtype=object).reshape(A.shape)
+        sig += '/bounds:' + bounds
     elif func == 'transpose':
-        expected = np.transpose(A)
+        axes = case.get('axes')
+        expected = np.transpose(A, axes=axes)
+        if axes is not None:
+            sig += '/axes'
     elif func in ('diagonal', 'trace'):
         kw['offset'] = case.get('offset', 0)
         expected = getattr(np, func)(A, offset=kw['offset'])
@@ -78,7 +84,22 @@ def check_func(ctx, case):
         before = C.flat(C.codes(x))
         if func == 'clip':
             a, b = float(lo_v), float(hi_v)
-            z = np.clip(x, a, b) if route == 'numpy' else x.clip(a, b)
+            if bounds == 'lo':
+                z = np.clip(x, a, None) if route == 'numpy' else x.clip(a)
+            elif bounds == 'hi':
+                z = np.clip(x, None, b) if route == 'numpy' else x.clip(a_max=b)
+            elif bounds in ('array', 'list'):
+                n = shape[-1]
+                la, lb = ([a] * n, [b] * n) if bounds == 'list' else (np.full(n, a), np.full(n, b))
+                z = np.clip(x, la, lb) if route == 'numpy' else x.clip(la, lb)
+                if list(la) != [a] * n or list(lb) != [b] * n:
+                    raise Mismatch('caller-limits-modified', {'a_min': [float(v) for v in la], 'a_max': [float(v) for v in lb]})
+            else:
+                z = np.clip(x, a, b) if route == 'numpy' else x.clip(a, b)
+        elif func == 'transpose' and case.get('axes') is not None:
+            z = np.transpose(x, case['axes']) if route == 'numpy' else x.transpose(axes=tuple(case['axes']))
+        elif func == 'transpose' and case.get('T'):
+            z = x.T
         elif func == 'sort' and route == 'method':
             z = x.deepcopy()
             z.sort(**kw)
@@ -87,7 +108,11 @@ def check_func(ctx, case):
         else:
             z = getattr(x, func)(**kw)
         return x, z, before
-    ok, res = ctx.guard(case, do, sig_prefix=sig + '/')
+    try:
+        ok, res = ctx.guard(case, do, sig_prefix=sig + '/')
+    except Mismatch as e:
+        ctx.fail('%s/%s' % (sig, e.sig), case, e.detail)
+        return
     if not ok:
         return
     x, z, before = res
@@ -209,6 +234,14 @@ def st_func(draw):
         den = 1 << max(fmt[2], 0)
         mul = 1 << max(-fmt[2], 0)
         case['clip'] = [[a * mul, den], [b * mul, den]]
+        case['bounds'] = draw(st.sampled_from(['both', 'both', 'lo', 'hi', 'array', 'list']))
+    if func == 'transpose':
+        kind_t = draw(st.sampled_from(['plain', 'axes', 'axes', 'T']))
+        if kind_t == 'axes':
+            case['axes'] = draw(st.permutations(list(range(len(shape)))))
+        elif kind_t == 'T':
+            case['T'] = True
+            case['route'] = 'method'
     if func in ('trace', 'diagonal'):
         # only offsets whose diagonal has at least one element (an empty result cannot be held by an Fxp)
         r, c = shape
